@@ -1656,7 +1656,10 @@ ZSTD_decompressSequences_body(ZSTD_DCtx* dctx,
 #  endif
 #endif
 
-        for ( ; nbSeq ; nbSeq--) {
+        for ( ; nbSeq ; nbSeq--)
+        ZSTD_VERIF_LOOP(ZSTD_VERIF_SEQLOOP(nbSeq, op, ostart, oend, litPtr, litEnd, seqState))
+        {
+            ZSTD_VERIF_GHOST(ZSTD_VERIF_REBASE(op, ostart); ZSTD_VERIF_REBASE(litPtr, dctx->litPtr);)
             seq_t const sequence = ZSTD_decodeSequence(&seqState, isLongOffset, nbSeq==1);
             size_t const oneSeqSize = ZSTD_execSequence(op, oend, sequence, &litPtr, litEnd, prefixStart, vBase, dictEnd);
 #if defined(FUZZING_BUILD_MODE_UNSAFE_FOR_PRODUCTION) && defined(FUZZING_ASSERT_VALID_SEQUENCE)
@@ -1668,6 +1671,7 @@ ZSTD_decompressSequences_body(ZSTD_DCtx* dctx,
             DEBUGLOG(6, "regenerated sequence size : %u", (U32)oneSeqSize);
             op += oneSeqSize;
         }
+        ZSTD_VERIF_GHOST(ZSTD_VERIF_REBASE(op, ostart); ZSTD_VERIF_REBASE(litPtr, dctx->litPtr);)
 
         /* check if reached exact end */
         assert(nbSeq == 0);
